@@ -17,7 +17,6 @@ import (
 	col "github.com/craterdog/go-collection-framework/v4/collection"
 	stc "strconv"
 	sts "strings"
-	utf "unicode/utf8"
 )
 
 // CLASS ACCESS
@@ -546,23 +545,35 @@ func (v *parser_) parseIntrinsic() (
 	}
 	_, token, ok = v.parseToken(ComplexToken, "")
 	if ok {
-		intrinsic, _ = stc.ParseComplex(token.GetValue(), 128)
-		return intrinsic, token, true
+		var complex_, err = stc.ParseComplex(token.GetValue(), 128)
+		if err != nil {
+			v.rejectLiteral(token)
+		}
+		return complex_, token, true
 	}
 	_, token, ok = v.parseToken(FloatToken, "")
 	if ok {
-		intrinsic, _ = stc.ParseFloat(token.GetValue(), 64)
-		return intrinsic, token, true
+		var float, err = stc.ParseFloat(token.GetValue(), 64)
+		if err != nil {
+			v.rejectLiteral(token)
+		}
+		return float, token, true
 	}
 	_, token, ok = v.parseToken(HexadecimalToken, "")
 	if ok {
-		intrinsic, _ = stc.ParseUint(token.GetValue()[2:], 16, 64)
-		return intrinsic, token, true
+		var unsigned, err = stc.ParseUint(token.GetValue()[2:], 16, 64)
+		if err != nil {
+			v.rejectLiteral(token)
+		}
+		return unsigned, token, true
 	}
 	_, token, ok = v.parseToken(IntegerToken, "")
 	if ok {
-		intrinsic, _ = stc.ParseInt(token.GetValue(), 10, 64)
-		return intrinsic, token, true
+		var integer, err = stc.ParseInt(token.GetValue(), 10, 64)
+		if err != nil {
+			v.rejectLiteral(token)
+		}
+		return integer, token, true
 	}
 	_, token, ok = v.parseToken(NilToken, "")
 	if ok {
@@ -571,20 +582,35 @@ func (v *parser_) parseIntrinsic() (
 	}
 	_, token, ok = v.parseToken(RuneToken, "")
 	if ok {
-		var matches = Scanner().MatchToken(RuneToken, token.GetValue())
-		var match, _ = stc.Unquote(matches.GetValue(1))
-		intrinsic, _ = utf.DecodeRuneInString(match)
-		return intrinsic, token, true
+		// The rune has the value of the same Go rune literal.
+		var rune_, _, tail, err = stc.UnquoteChar(token.GetValue()[1:], '\'')
+		if err != nil || tail != "'" {
+			v.rejectLiteral(token)
+		}
+		return rune_, token, true
 	}
 	_, token, ok = v.parseToken(StringToken, "")
 	if ok {
-		var matches = Scanner().MatchToken(StringToken, token.GetValue())
-		intrinsic, _ = stc.Unquote(matches.GetValue(1))
-		return intrinsic, token, true
+		var string_, err = stc.Unquote(token.GetValue())
+		if err != nil {
+			v.rejectLiteral(token)
+		}
+		return string_, token, true
 	}
 
 	// NOTE: ok may be true or false.
 	return intrinsic, token, ok
+}
+
+// This private instance method reports a literal that the scanner accepted but
+// that has no exact value (a number that is out of range or a quoted literal
+// that is not valid in Go) instead of silently replacing it by another value.
+func (v *parser_) rejectLiteral(token TokenLike) {
+	var message = v.formatError(token)
+	message += v.generateSyntax("Intrinsic",
+		"Intrinsic",
+	)
+	panic(message)
 }
 
 func (v *parser_) parseItems() (
